@@ -262,6 +262,19 @@ Theorem C19_layout_stride_default : forall t p idx, wf_ity t ->
 Proof. exact strided_default_spec. Qed.
 Print Assumptions C19_layout_stride_default.
 
+(* the conversions between layouts (the members defined by fixes 489f446, 54b4c1a, 4b7dc8a): a layout_stride
+   mapping constructed from a layout_left / layout_right mapping has its extents, strides and offsets (for every
+   argument), and converting that back gives the extents again; conversions that also change the extents type go
+   through the converting extents constructor (C19_extents_convert, C19_mapping_conversion) *)
+Theorem C19_layout_conversions_roundtrip : forall l t e idx, wf_ity t -> wf_ext t e ->
+  let m := strided_of_layout l t (pat e) t e in
+  extents_list t (st_ext m) = extents_list t e
+  /\ st_strides m = lay_strides l t e
+  /\ strided_map t m idx = lay_map l t e idx
+  /\ extents_list t (layout_of_strided t (pat e) t m) = extents_list t e.
+Proof. exact layout_conversions_roundtrip. Qed.
+Print Assumptions C19_layout_conversions_roundtrip.
+
 (** * layout_transpose *)
 Theorem C19_transpose_formula : forall l t ne i j, wf_ity t -> rank ne = 2%nat ->
   in_range [i; j] (rev (extents_list t ne)) -> product (extents_list t ne) <= imax t ->
